@@ -110,6 +110,9 @@ func histFiles(ext string) map[string]string {
 		"usesbare" + ext:        "@use(\"~bare\")ignored page text",
 		"components/flag" + ext: "@if(admin)ADMIN@else guest@end@each(n in names)[{{ n }}]@end",
 		"usesflag" + ext:        "<@component(\"~flag\")>@each(k in [1, 2])(@component(\"~flag\"))@end",
+		"prints" + ext:          "{{ \"~card\" }}|{{ \"~main\" }}|{{ \"~flag\" }}|{{ \"components/card\" }}|{{ '~card' + \"~bare\" }}",
+		"rawpage" + ext:         "{{ frag.raw() }}|{{ frag }}",
+		"repeats" + ext:         "{{ pattern.repeat(n) }}|{{ amount.decimal(sep, places) }}",
 		"args" + ext:            "{{ word.at(-back) }}|{{ shown.then(!muted, \"n/a\") }}|{{ -n }}|{{ word.at(back - 1) }}|{{ [1, 2, 3].slice(-(back), 3) }}|@each(w in [word])@if(!muted){{ w.repeat(-(-back)) }}@end@end",
 		"item" + ext:            "item {{ it.name }}/{{ it.qty }} {{ it }}",
 	}
@@ -224,6 +227,30 @@ func histOps() []histOp {
 		{"String(usesflag, admin)", str("usesflag", func() map[string]any { return map[string]any{"admin": true, "names": []string{"a", "b"}} })},
 		{"String(usesflag, guest)", str("usesflag", func() map[string]any { return map[string]any{"admin": false, "names": []string{}} })},
 		{"Response(usesflag, nil)", resp("usesflag", noData)},
+		// string literals spelled like the alias names of the components and layouts other pages use
+		{"String(prints)", str("prints", noData)},
+		{"EvaluateString(literal ~card, unknown ~label)", func(h *histEnv) string {
+			out, err := textwire.EvaluateString("{{ \"~card\" }}{{ \"~label\" }}@component(\"~label\")", nil)
+			return fmt.Sprintf("out=%q err=%v", out, err)
+		}},
+		// repeat/decimal requests whose string and count spell the same digits: ("0",12) and ("01",2), ("1",2) and ("",12)
+		{"String(repeats, 5.decimal(., 12))", str("repeats", func() map[string]any {
+			return map[string]any{"pattern": "x", "n": 1, "amount": 5, "sep": ".", "places": 12}
+		})},
+		{"String(repeats, 01.repeat(2))", str("repeats", func() map[string]any {
+			return map[string]any{"pattern": "01", "n": 2, "amount": 7, "sep": ",", "places": 3}
+		})},
+		{"EvaluateString(1.repeat(2))", func(h *histEnv) string {
+			out, err := textwire.EvaluateString("{{ \"1\".repeat(2) }}", nil)
+			return fmt.Sprintf("out=%q err=%v", out, err)
+		}},
+		{"EvaluateString(empty.repeat(12))", func(h *histEnv) string {
+			out, err := textwire.EvaluateString("{{ \"\".repeat(12) }}|{{ 0.decimal(\"1\", 2) }}|{{ \"12\".repeat(1) }}", nil)
+			return fmt.Sprintf("out=%q err=%v", out, err)
+		}},
+		// two different fragments with equal CRC-32 through raw()
+		{"String(rawpage, fragment 29685295)", str("rawpage", func() map[string]any { return map[string]any{"frag": "<b>fragment 29685295</b> &amp; more"} })},
+		{"String(rawpage, fragment 32060020)", str("rawpage", func() map[string]any { return map[string]any{"frag": "<b>fragment 32060020</b> &amp; more"} })},
 		// sources of equal length (whose 32-bit FNV-1a hashes also agree): each evaluates to its own text
 		{"EvaluateString(invoice 232789)", func(h *histEnv) string {
 			out, err := textwire.EvaluateString("<p>Invoice 232789: {{ total }} EUR</p>", map[string]any{"total": 5})
@@ -317,7 +344,7 @@ func init() {
 	core.Register(&core.Check{
 		ID:    "C16",
 		Level: "exploration",
-		Rule: "histories are all sequences up to length 2 (quick) / 3 (thorough), sampled ones a step longer and random ones of length 30, over 40 concrete operations on a fixed template tree: String of a layout+component+loop page with struct data, of a page reading user.name with a Go struct, with a map holding name and Name, with a lower-case-only map, of two pages that fail at run time after producing output, of a missing name, of a layout name, of a page calling reverse/append/slice/prepend on data arrays; Response ok/failing/missing (the failing ones render the error page through the string API); EvaluateString ok/failing; EvaluateFile ok/missing - on 3 directory/extension settings x debug on/off x custom error page none/valid/failing; also renders without data that assign at top level followed by renders that read the name, loops that fail in a later pass followed by other loops, one page with call arguments built from prefix operators rendered with two data sets, two struct types that print the same type name, and one long-lived pointer that first holds an unsupported value and is then repaired. " +
+		Rule: "histories are all sequences up to length 2 (quick; length 2 under 3 rotating configurations each) / 3 (thorough, all configurations), sampled ones a step longer and random ones of length 30, over 48 concrete operations on a fixed template tree: String of a layout+component+loop page with struct data, of a page reading user.name with a Go struct, with a map holding name and Name, with a lower-case-only map, of two pages that fail at run time after producing output, of a missing name, of a layout name, of a page calling reverse/append/slice/prepend on data arrays; Response ok/failing/missing (the failing ones render the error page through the string API); EvaluateString ok/failing; EvaluateFile ok/missing - on 3 directory/extension settings x debug on/off x custom error page none/valid/failing; also renders without data that assign at top level followed by renders that read the name, loops that fail in a later pass followed by other loops, one page with call arguments built from prefix operators rendered with two data sets, two struct types that print the same type name, and one long-lived pointer that first holds an unsupported value and is then repaired. " +
 			"Each step's observation (output, or message+line+path; body and returned error for Response) is compared with the same operation issued first on a fresh load; after every step the verif hooks VerifFingerprint (loaded ASTs) and VerifState (configuration) must equal their values after load. distinct_nontrivial = distinct (configuration, history) pairs",
 		Assumptions: []string{
 			"the baseline of an operation is its result as the first call of a fresh process that loaded the same tree with the same configuration (one child process per operation and configuration)",
@@ -328,7 +355,7 @@ func init() {
 			}
 		},
 		Sections: func(tier core.Tier, seed int64) []core.Section {
-			maxLen, nShort, nRandom := 2, 24000, 300
+			maxLen, nShort, nRandom := 2, 12000, 300
 			if tier == core.Thorough {
 				maxLen, nShort, nRandom = 3, 3000000, 20000
 			}
@@ -423,10 +450,19 @@ func init() {
 				for k := 0; k < L; k++ {
 					n *= nOps
 				}
-				secs = append(secs, core.Section{Name: fmt.Sprintf("histories-len%d", L), Exhaustive: true, N: n * nCfg,
+				// in the quick tier every history of length >= 2 runs under three of the 18 configurations
+				// (rotating with the history, so that every configuration meets every operation)
+				perHistory := nCfg
+				if tier != core.Thorough && L >= 2 {
+					perHistory = 3
+				}
+				secs = append(secs, core.Section{Name: fmt.Sprintf("histories-len%d", L), Exhaustive: true, N: n * perHistory,
 					Run: func(c *core.Ctx, i int) {
-						cfgNo := i % nCfg
-						x := i / nCfg
+						x := i / perHistory
+						cfgNo := (i%perHistory*6 + x + x/nOps) % nCfg
+						if perHistory == nCfg {
+							cfgNo = i % nCfg
+						}
 						seq := make([]int, L)
 						for k := L - 1; k >= 0; k-- {
 							seq[k] = x % nOps
